@@ -174,8 +174,14 @@ int ezc3d::ParametersNS::GroupNS::Parameter::read(ezc3d::c3d &file, int nbCharIn
         for (int i=0; i<nDimensions; ++i)
             _dimension.push_back (file.readUint(1*ezc3d::DATA_TYPE::BYTE));    // Read the dimension size of the matrix
 
-    // Read the data for the parameters
-    if (_data_type == DATA_TYPE::CHAR)
+    // Read the data for the parameters. A dimension of 0 means that there is no element at all, whatever
+    // the other dimensions are (the first dimension of a CHAR is the length of the strings, not a count)
+    size_t nbElements(1);
+    for (size_t i = (_data_type == DATA_TYPE::CHAR ? 1 : 0); i < _dimension.size(); ++i)
+        nbElements *= _dimension[i];
+    if (nbElements == 0)
+        ;
+    else if (_data_type == DATA_TYPE::CHAR)
         file.readParam(_dimension, _param_data_string);
     else if (_data_type == DATA_TYPE::BYTE)
         file.readParam(static_cast<unsigned int>(_data_type), _dimension, _param_data_int);
